@@ -152,7 +152,7 @@ PAR_THREADS_QUICK = (3, 16)
 PAR_THREADS_ALL = (1, 2, 3, 4, 5, 7, 8, 16)
 PROPS["C12"] = dict(
     level="exploration",
-    rule="sizes 2^1..2^13 (thorough 2^16) x 7 coefficient types x blowups {1..64} x offsets {generator,1,random,p-1}: "
+    rule="sizes 2^1..2^13 (thorough 2^16) x 7 coefficient types x blowups {1..64; 128..16384 for sizes <= 64} x offsets {generator,1,random,p-1}: "
          "evaluate_poly, evaluate_poly_with_offset, serial_fft vs naive evaluation over the offset subgroup in natural "
          "order (all points for n <= 1024 (4096), 69 spot points above), interpolate_poly(_with_offset) inverts, "
          "infer_degree on degrees {0,1,n/2,n-1}, twiddles/permute_index; serial, overflow-check, concurrent builds at "
